@@ -148,7 +148,10 @@ LEVEL_TEXT = ("Machine-checked theorems about an executable model of the ToDo de
               "of any length with arbitrary task bodies and clock advances. Tied to /repo by running generated histories on the real "
               "Driver/ToDo under a link-time virtual clock and comparing every task invocation (id, virtual time) and every poll "
               "timeout with the model; the property predicate (reference bag scheduler, Spec/C06.lean) is evaluated on the implementation trace, "
-              "and theorem spec_holds_on_model proves that this very predicate accepts every run of the model (any history, any bodies, any clock).")
+              "and theorem spec_holds_on_model proves that this very predicate accepts every run of the model (any history, any bodies, any clock). "
+              "The step-level clauses of the same driver (promptness, no task after the socket wait, monotone clock, and C07's clauses about the "
+              "socket wait) are Spec.C07.Step.specStep (Spec/C07.lean), which calls the reference scheduler for every invocation and is proved to "
+              "accept every trace of the model in Props/C07.lean (spec_holds_on_model_step).")
 LEVEL_NOTE = ("Trusted: Lean kernel; axioms propext/Quot.sound/Classical.choice; hand-written model (correspondence on generated "
               "histories only); vos shim (virtual clock, poll interposition). Cross-thread calls are covered through C04's "
               "serialisation argument, not here. 'exactly one run if the driver keeps stepping' is the combination of "
